@@ -16,6 +16,8 @@ never changes its meaning"):
  FIELDS  no semantic field of a handled node kind is dropped: for every post<K> handler each field in ast.<K>._fields
          (minus ctx/type_comment/kind) is read by the handler, or the handler raises.
  ESCAPE  literal text of an f-string re-enters a lexical context where { and } are special: postJoinedStr re-escapes them.
+ ESCAPE+ with a delimiter given, every definition of the literal text that reaches the output of fstring_body went through an escaping
+         operation (reaching definitions under that scenario): no guard on the text itself lets a backslash through.
 """
 NOT_DECIDED = "evaluation in the caller's frame, closure cells, which sub-expressions are classified as outer-scope"
 
